@@ -71,8 +71,23 @@ pub async fn upgrade_device(world: &mut NetWorld, di: usize, s: &Value, rec: &mu
         }
         Err(_) => false,
     };
-    // sign out: the upgrader works on closed accounts
+    // What a fresh account over the same file-system storage serves: the
+    // reference for "the upgrade loses nothing". (The live in-memory account
+    // can differ from its own persisted state for reasons that are C02's
+    // business, e.g. a folder name recorded in two independently ordered logs.)
     world.devices[di].bridge = None;
+    let persisted_before = match world.devices[di].dev.open().await {
+        Ok(()) => world.devices[di].dev.snapshot().await.ok(),
+        Err(_) => None,
+    };
+    // inconsistencies the file-system account already has (log replay vs
+    // served vs persisted vault) are not the upgrader's doing
+    let mut pre = Recorder::default();
+    if world.devices[di].dev.account.is_some() {
+        no::check_replay_as(&mut world.devices[di].dev, &mut pre, "upgrade", false, "C19").await;
+    }
+    let pre_sigs: BTreeSet<String> = pre.violations.iter().map(|v| v.signature.replace("/fs/", "/*/")).collect();
+    // sign out: the upgrader works on closed accounts
     world.devices[di].dev.account = None;
     tokio::task::yield_now().await;
 
@@ -155,8 +170,30 @@ pub async fn upgrade_device(world: &mut NetWorld, di: usize, s: &Value, rec: &mu
         }
         Err(e) => rec.violate("C19", "C19/client/status_unreadable_after_upgrade", e),
     }
-    world.devices[di].dev.check_model(rec, "upgrade", "upgrade", "C19").await;
-    no::check_replay_as(&mut world.devices[di].dev, rec, "upgrade", false, "C19").await;
+    match (persisted_before, world.devices[di].dev.snapshot().await) {
+        (Some(before), Ok(after)) => {
+            if let Some(d) = diff_snap(&before, &after) {
+                rec.violate(
+                    "C19",
+                    "C19/client/served_after_upgrade_differs_from_file_system_account",
+                    format!("a fresh file-system account served A, the upgraded database account serves B: {d}"),
+                );
+            }
+            // the history continues from what is served now
+            world.devices[di].dev.model.folders = after.clone();
+            let folders = after;
+            world.devices[di].dev.model.slots.retain(|_, (f, id)| folders.get(f).map(|x| x.secrets.contains_key(id)).unwrap_or(false));
+        }
+        (None, _) => rec.observe("c19: file-system account did not reopen before the upgrade"),
+        (_, Err(e)) => rec.violate("C19", "C19/client/upgraded_account_unreadable", e),
+    }
+    let mut post = Recorder::default();
+    no::check_replay_as(&mut world.devices[di].dev, &mut post, "upgrade", false, "C19").await;
+    for v in post.violations {
+        if !pre_sigs.contains(&v.signature.replace("/db/", "/*/")) {
+            rec.violate("C19", &v.signature, v.detail);
+        }
+    }
     let trusted_after = trusted(&world.devices[di].dev).await;
     if trusted_after != trusted_before {
         rec.violate(
